@@ -13,7 +13,7 @@ def sh(cmd, **kw):
 # properties whose checks exercise a module (all 20 with --all)
 BY_MODULE = {"core.py": ["C01", "C02", "C03", "C04", "C05", "C06", "C07", "C08", "C09"], "minerals.py": ["C01", "C05", "C06", "C07", "C08", "C09", "C10", "C17"],
              "utils.py": ["C01", "C06", "C09", "C14", "C18"], "pathlines.py": ["C18"], "tensors.py": ["C10", "C11", "C12"],
-             "stats.py": ["C15"], "diagnostics.py": ["C12", "C13", "C14"], "geometry.py": ["C13", "C14", "C18", "C20"], "velocity.py": ["C18", "C06"],
+             "stats.py": ["C13", "C15", "C20"], "diagnostics.py": ["C12", "C13", "C14"], "geometry.py": ["C13", "C14", "C18", "C20"], "velocity.py": ["C18", "C06"],
              "io.py": ["C16", "C19"]}
 ALL = "--all" in sys.argv
 sys.argv = [a for a in sys.argv if a != "--all"]
